@@ -27,9 +27,9 @@ Entries(o) == {"E1", "E2", "E3"} \cap (IF o.entries = 1 THEN {"E1"} ELSE IF o.en
 Named(o) == {<<o.tpl, e>> : e \in Entries(o)}
 
 \* ---- the as-built matrix: named deviations with their exact outcome --------------------------------------------
+\* (the row `--parse argparse` -> ModuleNotFoundError was repaired, 57573db + 33c13fd: those cells now fall through to their emit kind)
 Dev(o) ==
-  CASE o.parse = "argparse"          -> <<"gen_parse_argparse_module_not_found", "raises:ModuleNotFoundError">>
-    [] o.parse = "sqlalchemy_table"  -> <<"gen_parse_sqlalchemy_table_attribute_error", "raises:AttributeError">>
+  CASE o.parse = "sqlalchemy_table"  -> <<"gen_parse_sqlalchemy_table_attribute_error", "raises:AttributeError">>
     [] o.parse = "sqlalchemy_hybrid" -> <<"gen_parse_sqlalchemy_hybrid_assertion_error", "raises:AssertionError">>
     [] o.parse = "json_schema"       -> <<"gen_parse_json_schema_unusable", "wild">>
     [] o.emit = "function"           -> <<"gen_emit_function_type_error", "raises:TypeError">>
